@@ -1,0 +1,37 @@
+//go:build verif
+
+package plugins
+
+import (
+	internal "github.com/cube2222/octosql/plugins/internal/plugins"
+)
+
+// Verification hook (build tag `verif` only; nothing here is compiled into a normal build).
+//
+// The plugin wire conversions live in an `internal` package, which a module outside this repository
+// cannot import. These aliases re-export exactly those types and functions, unchanged, so that an external
+// checker can call the real code in-process.
+
+type (
+	VerifValue                    = internal.Value
+	VerifType                     = internal.Type
+	VerifStructField              = internal.StructField
+	VerifSchema                   = internal.Schema
+	VerifSchemaField              = internal.SchemaField
+	VerifRecord                   = internal.Record
+	VerifMetadataMessage          = internal.MetadataMessage
+	VerifRunResponseMessage       = internal.RunResponseMessage
+	VerifPhysicalVariableContext  = internal.PhysicalVariableContext
+	VerifExecutionVariableContext = internal.ExecutionVariableContext
+)
+
+var (
+	VerifNativeValueToProto                    = internal.NativeValueToProto
+	VerifNativeTypeToProto                     = internal.NativeTypeToProto
+	VerifNativeSchemaToProto                   = internal.NativeSchemaToProto
+	VerifNativeRecordToProto                   = internal.NativeRecordToProto
+	VerifNativeMetadataMessageToProto          = internal.NativeMetadataMessageToProto
+	VerifNativePhysicalVariableContextToProto  = internal.NativePhysicalVariableContextToProto
+	VerifNativeExecutionVariableContextToProto = internal.NativeExecutionVariableContextToProto
+	VerifRepopulatePhysicalExpressionFunctions = internal.RepopulatePhysicalExpressionFunctions
+)
